@@ -22,6 +22,7 @@ import (
 	"testing"
 
 	"github.com/google/martian/v3"
+	"github.com/google/martian/v3/api"
 	mlog "github.com/google/martian/v3/log"
 	"github.com/google/martian/v3/martianhttp"
 	"github.com/google/martian/v3/parse"
@@ -59,6 +60,7 @@ type Op struct {
 	Req   *tr.Req `json:"req,omitempty"`
 	Res   *tr.Res `json:"res,omitempty"`
 	API   bool    `json:"api,omitempty"`    // the exchange is addressed to the proxy's own API
+	Fwd   bool    `json:"fwd,omitempty"`    // with API: marked by passing through the real api.Forwarder (else ctx.APIRequest() directly)
 	NoRes bool    `json:"no_res,omitempty"` // request only
 }
 
@@ -70,14 +72,53 @@ type Case struct {
 
 // ---------------------------------------------------------------- system under test
 
+// apiPort is the port of the (never started) API server the forwarder targets.
+const apiPort = 8181
+
+var apiTarget = fmt.Sprintf("localhost:%d", apiPort)
+
+// apiForm names how an exchange is marked as addressed to the proxy's API.
+func apiForm(op *Op) string {
+	switch {
+	case !op.API:
+		return ""
+	case !op.Fwd:
+		return "direct"
+	case op.Req.Scheme == "http" && op.Req.Host == apiTarget:
+		return "url-already-forwarder-target"
+	case strings.EqualFold(op.Req.Host, apiTarget):
+		return "url-names-target-in-other-spelling"
+	}
+	return "url-virtual-host"
+}
+
+// effReq is the request as the configured tree sees it: the forwarder, which
+// the proxy's mux filter runs ahead of everything else, re-addresses API
+// requests to http://localhost:<port>.
+func effReq(op *Op) *tr.Req {
+	rq := op.Req.Clone()
+	if op.API && op.Fwd {
+		rq.Scheme, rq.Host = "http", apiTarget
+	}
+	return rq
+}
+
+func apiSig(form, kind string) string {
+	if form == "direct" || form == "" {
+		return "C13/api-exempt/" + kind + "-verifier/api-request-counted"
+	}
+	return "C13/api-exempt/forwarder/" + form + "/api-request-counted"
+}
+
 type sut struct {
+	fwd     *api.Forwarder
 	m       *martianhttp.Modifier
 	verifyH *verify.Handler
 	resetH  *verify.ResetHandler
 }
 
 func newSUT(tree *tr.Node) (*sut, kit.Verdict) {
-	s := &sut{m: martianhttp.NewModifier(), verifyH: verify.NewHandler(), resetH: verify.NewResetHandler()}
+	s := &sut{fwd: api.NewForwarder("", apiPort), m: martianhttp.NewModifier(), verifyH: verify.NewHandler(), resetH: verify.NewResetHandler()}
 	rw := httptest.NewRecorder()
 	s.m.ServeHTTP(rw, httptest.NewRequest("POST", "/configure", strings.NewReader(string(tree.JSON()))))
 	if rw.Code != 200 {
@@ -98,7 +139,13 @@ func (s *sut) exchange(op *Op) error {
 		panic(err)
 	}
 	defer remove()
-	if op.API {
+	switch {
+	case op.API && op.Fwd:
+		// the real marking path: what the proxy's mux filter routes API traffic through
+		if err := s.fwd.ModifyRequest(req); err != nil {
+			return fmt.Errorf("api.Forwarder.ModifyRequest: %v", err)
+		}
+	case op.API:
 		ctx.APIRequest()
 	}
 	if err := s.m.ModifyRequest(req); err != nil {
@@ -146,6 +193,7 @@ type rec struct {
 	leaf *tr.Node
 	side tr.Side
 	text string
+	form string // apiForm of the exchange
 }
 
 func kindOf(n *tr.Node) string { return strings.ToLower(strings.TrimSuffix(n.T, ".Verifier")) }
@@ -219,14 +267,14 @@ func predict(tree *tr.Node, op *Op) (unmet []rec, pinged []*tr.Node, v kit.Verdi
 		got := isolated(leaf, side, rq, rs)
 		switch {
 		case want && len(got) == 1:
-			unmet = append(unmet, rec{leaf, side, got[0]})
+			unmet = append(unmet, rec{leaf, side, got[0], apiForm(op)})
 		case !want && len(got) == 0:
 		default:
 			v.Addf("C13/leaf/"+kindOf(leaf)+"-verifier/isolated-instance-disagrees-with-documented-expectation",
 				"%s on %s %s (status %v): documented expectation unmet=%v, a fresh instance reports %q", leaf.JSON(), side, rq.URLString(), statusOf(rs), want, got)
 		}
 	}}
-	rq := op.Req.Clone()
+	rq := effReq(op)
 	in.Request(tree, rq)
 	if !op.NoRes {
 		rs := op.Res.Clone()
@@ -246,9 +294,10 @@ func statusOf(rs *tr.Res) interface{} {
 type slot struct {
 	leaf  *tr.Node
 	side  tr.Side
-	cur   []string // what the statement says a query must report
-	api   []string // evaluations of API requests: must NOT be reported
-	stale []string // recorded before a reset: must NOT be reported any more
+	cur   []string          // what the statement says a query must report
+	api   []string          // evaluations of API requests: must NOT be reported
+	form  map[string]string // text of an API evaluation -> apiForm
+	stale []string          // recorded before a reset: must NOT be reported any more
 	// pingback
 	ping     bool
 	seen     bool
@@ -360,8 +409,8 @@ func (m *model) compare(step int, what string, got []string) kit.Verdict {
 				sl, why = scratch.take(text, stalePool, nil), "stale"
 			}
 			if sl != nil && why == "api" {
-				v.Addf("C13/api-exempt/"+kindOf(sl.leaf)+"-verifier/api-request-counted",
-					"step %d (%s): %q is reported although the request was addressed to the proxy's own API (verifier %s)", step, what, text, sl.leaf.JSON())
+				v.Addf(apiSig(sl.form[text], kindOf(sl.leaf)),
+					"step %d (%s): %q is reported although the request was addressed to the proxy's own API (marked: %s; verifier %s)", step, what, text, sl.form[text], sl.leaf.JSON())
 				continue
 			}
 			if sl != nil {
@@ -400,6 +449,10 @@ func (m *model) applyExchange(unmet []rec, pinged []*tr.Node, api bool) {
 		}
 		if api {
 			sl.api = append(sl.api, r.text)
+			if sl.form == nil {
+				sl.form = map[string]string{}
+			}
+			sl.form[r.text] = r.form
 		} else {
 			sl.cur = append(sl.cur, r.text)
 		}
@@ -562,7 +615,7 @@ func dynStats(c Case) (anyUnmet, unmetThenReset, apiUnmet, elseUnmet bool) {
 					elseUnmet = true
 				}
 			}}
-			rq := op.Req.Clone()
+			rq := effReq(op)
 			in.Request(c.Tree, rq)
 			if !op.NoRes {
 				rs := op.Res.Clone()
@@ -577,6 +630,15 @@ func dynStats(c Case) (anyUnmet, unmetThenReset, apiUnmet, elseUnmet bool) {
 		}
 	}
 	return
+}
+
+func appendOnce(cl []string, x string) []string {
+	for _, y := range cl {
+		if y == x {
+			return cl
+		}
+	}
+	return append(cl, x)
 }
 
 func classes(c Case) []string {
@@ -605,6 +667,11 @@ func classes(c Case) []string {
 	}
 	if apis >= 1 {
 		cl = append(cl, "has-api-request")
+	}
+	for i := range c.Ops {
+		if f := apiForm(&c.Ops[i]); f != "" {
+			cl = appendOnce(cl, "api-mark:"+f)
+		}
 	}
 	au, ur, ap, eu := dynStats(c)
 	if au {
@@ -726,10 +793,33 @@ func genTree(t *rapid.T) *tr.Node {
 	return g.node(1)
 }
 
+// apiURLForms: scheme, host, path ("" = keep the drawn path) of requests a
+// client addresses to the proxy's API: the virtual host, and the API server's
+// own address in several spellings (the second one is already exactly what the
+// forwarder forwards to).
+var apiURLForms = [][3]string{
+	{"http", "martian.proxy", "/verify"},
+	{"https", "martian.proxy", "/verify/reset"},
+	{"http", apiTarget, "/verify"},
+	{"http", apiTarget, ""},
+	{"http", strings.ToUpper(apiTarget), "/x"},
+	{"https", apiTarget, "/configure"},
+	{"http", "martian.proxy", ""},
+}
+
 func genExchange(t *rapid.T) Op {
 	rq, rs := tr.GenPairOpt(t, false) // what querystring.Verifier expects of an unparsable query is not part of the statement
 	op := Op{K: "X", Req: &rq, Res: &rs}
-	op.API = uni(t, "api", 5) == 0
+	op.API = uni(t, "api", 4) == 0
+	if op.API && uni(t, "direct", 4) > 0 {
+		// addressed to the API the way a client does it: by URL, marked by the real forwarder
+		op.Fwd = true
+		form := apiURLForms[uni(t, "apiurl", len(apiURLForms))]
+		rq.Scheme, rq.Host, rq.HostH = form[0], form[1], form[1]
+		if form[2] != "" {
+			rq.Path = form[2]
+		}
+	}
 	op.NoRes = uni(t, "nores", 6) == 0
 	if op.NoRes {
 		op.Res = nil
@@ -753,7 +843,7 @@ func genCase(t *rapid.T) Case {
 	return c
 }
 
-var seqRule = "verifier-bearing configuration trees (fifo groups, url/header/querystring/method/cookie filters with verifiers in either branch, status/header/method/url/querystring/failure/pingback verifiers, scope drawn at every node, depth <= 4) installed through the configuration endpoint; histories of <= 30|80 exchanges (1 in 5 marked as API request), queries and resets through the real verify and reset handlers; after every step the handler's error list is compared as a multiset with the model; non-trivial = a verifier in an else-branch, nesting depth >= 3, >= 2 resets, or an API request"
+var seqRule = "verifier-bearing configuration trees (fifo groups, url/header/querystring/method/cookie filters with verifiers in either branch, status/header/method/url/querystring/failure/pingback verifiers, scope drawn at every node, depth <= 4) installed through the configuration endpoint; histories of <= 30|80 exchanges (1 in 4 addressed to the proxy API: 3 of 4 of those by URL - virtual host martian.proxy or the API server address itself in several spellings - and marked by the real api.Forwarder, the rest by ctx.APIRequest()), queries and resets through the real verify and reset handlers; after every step the handler's error list is compared as a multiset with the model; non-trivial = a verifier in an else-branch, nesting depth >= 3, >= 2 resets, or an API request"
 
 var propSequential = &kit.Prop[Case]{
 	ID: "C13", Name: "histories", Rule: "rapid-drawn " + seqRule,
@@ -761,6 +851,7 @@ var propSequential = &kit.Prop[Case]{
 	Gates: map[string]float64{
 		"verifier-in-else": 0.15, "response-verifier-in-else": 0.05, "resets>=2": 0.30, "has-api-request": 0.40,
 		"unmet-recorded": 0.40, "unmet-then-reset": 0.25, "api-request-would-be-unmet": 0.20, "unmet-in-else-branch": 0.08,
+		"api-mark:direct": 0.15, "api-mark:url-virtual-host": 0.25, "api-mark:url-already-forwarder-target": 0.25, "api-mark:url-names-target-in-other-spelling": 0.25,
 	},
 }
 
@@ -778,7 +869,7 @@ func TestHistories(t *testing.T) {
 // reset, query. This is the matrix in which the anticipated defects live.
 var propEnum = &kit.Prop[Case]{
 	ID: "C13", Name: "enum-branch-matrix",
-	Rule: "ALL 5 filter kinds x {modifier, else} branch x 7 verifier types x {bare filter, filter inside a fifo group} x {ordinary, API-marked} exchange that reaches the verifier with an unmet expectation, then query, reset, query; non-trivial = same rule as the histories check",
+	Rule: "ALL 5 filter kinds x {modifier, else} branch x 7 verifier types x {bare filter, filter inside a fifo group} x {ordinary, API marked directly, API by virtual host through the forwarder, API by the forwarder's own target URL through the forwarder} exchange that reaches the verifier with an unmet expectation, then query, reset, query; non-trivial = same rule as the histories check",
 	Run:  runSequential, NonTrivial: nontrivial, Classes: classes,
 }
 
@@ -811,7 +902,7 @@ func TestEnum(t *testing.T) {
 			for branch := 0; branch < 2; branch++ {
 				for _, vt := range verifiers {
 					for wrap := 0; wrap < 2; wrap++ {
-						for api := 0; api < 2; api++ {
+						for api := 0; api < 4; api++ {
 							v := *vt
 							v.ID = 3
 							f := &tr.Node{ID: 2, T: fk, P: conds[fk][branch]}
@@ -826,7 +917,13 @@ func TestEnum(t *testing.T) {
 								root = &tr.Node{ID: 1, T: tr.Fifo, Kids: []*tr.Node{f}}
 							}
 							q, s := rq, rs
-							ops := []Op{{K: "X", Req: &q, Res: &s, API: api == 1}, {K: "V"}, {K: "Z"}, {K: "V"}}
+							switch api {
+							case 2:
+								q.Scheme, q.Host, q.HostH = "https", "martian.proxy", "martian.proxy"
+							case 3:
+								q.Scheme, q.Host, q.HostH = "http", apiTarget, apiTarget
+							}
+							ops := []Op{{K: "X", Req: &q, Res: &s, API: api >= 1, Fwd: api >= 2}, {K: "V"}, {K: "Z"}, {K: "V"}}
 							if !yield(Case{Tree: root, Ops: ops}) {
 								return
 							}
@@ -1026,7 +1123,7 @@ func runConcurrent(c ConcCase) kit.Verdict {
 					r, why = takeRec(&stalePool, text, nil), "stale"
 				}
 				if r != nil && why == "api" {
-					v.Addf("C13/api-exempt/"+kindOf(r.leaf)+"-verifier/api-request-counted", "query [%d,%d]: %q is reported although the request was addressed to the proxy's own API", q.start, q.end, text)
+					v.Addf(apiSig(r.form, kindOf(r.leaf)), "query [%d,%d]: %q is reported although the request was addressed to the proxy's own API (marked: %s)", q.start, q.end, text, r.form)
 					continue
 				}
 				if r != nil {
@@ -1058,7 +1155,7 @@ func concShape(c ConcCase) (s shape, hasReset, hasQuery bool, exchanges int) {
 
 var propConcurrent = &kit.Prop[ConcCase]{
 	ID: "C13", Name: "concurrent",
-	Rule: "one verifier-bearing tree, 4 traffic goroutines (<= 12|25 exchanges each) and 2 control goroutines (programs of <= 10 queries/resets) on the real handlers; ops are stamped with a global sequence number before start and after return; every failure whose exchange returned before a query began, with no reset possibly in between, must be in that query's answer, and nothing may be reported more often than evaluations can explain; run under the race detector in the race shard; non-trivial = the tree holds a verifier, traffic on >= 2 goroutines and at least one concurrent query",
+	Rule: "one verifier-bearing tree, 4 traffic goroutines (<= 12|25 exchanges each) and 2 control goroutines (programs of <= 10 queries/resets) on the real handlers, API exchanges marked as in the histories check (mostly through the real api.Forwarder); ops are stamped with a global sequence number before start and after return; every failure whose exchange returned before a query began, with no reset possibly in between, must be in that query's answer, and nothing may be reported more often than evaluations can explain; run under the race detector in the race shard; non-trivial = the tree holds a verifier, traffic on >= 2 goroutines and at least one concurrent query",
 	Run:  runConcurrent,
 	NonTrivial: func(c ConcCase) bool {
 		s, _, q, _ := concShape(c)
@@ -1088,9 +1185,17 @@ var propConcurrent = &kit.Prop[ConcCase]{
 		if s.verifierInElse {
 			cl = append(cl, "verifier-in-else")
 		}
+		for _, ops := range c.Traffic {
+			for i := range ops {
+				if f := apiForm(&ops[i]); f != "" {
+					cl = appendOnce(cl, "api-mark:"+f)
+				}
+			}
+		}
 		return cl
 	},
-	Gates: map[string]float64{"concurrent-query": 0.6, "concurrent-reset": 0.4, "verifier-not-under-fifo": 0.15},
+	Gates: map[string]float64{"concurrent-query": 0.6, "concurrent-reset": 0.4, "verifier-not-under-fifo": 0.15,
+		"api-mark:direct": 0.3, "api-mark:url-already-forwarder-target": 0.5, "api-mark:url-virtual-host": 0.5},
 	Gen: func(t *rapid.T) ConcCase {
 		c := ConcCase{Tree: genTree(t), Yield: uni(t, "yield", 3)}
 		for g := 0; g < 4; g++ {
